@@ -10,6 +10,7 @@
 package main
 
 import (
+	"runtime/debug"
 	"time"
 	"encoding/hex"
 	"fmt"
@@ -48,6 +49,8 @@ const (
 	//        history replaces before an OPEN by statements on this and on other cursors (reentrant.go)
 	qInto // FOR a prepared SELECT … INTO: with more than one row in t the evaluation fails AFTER the view was built
 	//        (Select returns the view AND the error): the OPEN fails, the cursor must stay closed
+	qStmtH // FOR a prepared statement with placeholders (psh0 … psh3, shape = qarg % 4): opened through programs that nest
+	//        the OPEN, with and without USING, in EXECUTE … USING / functions / SOURCE (stmtprog.go)
 	nQueries
 )
 
@@ -93,6 +96,8 @@ func queryText(k, arg int) string {
 		return "ps1"
 	case qInto:
 		return "psi"
+	case qStmtH:
+		return fmt.Sprintf("psh%d", arg%len(hShapes))
 	case qCount:
 		if arg%2 == 0 {
 			return "SELECT id, v FROM t LIMIT (@cnt := @cnt + 1) * 0 + 1000"
@@ -364,7 +369,7 @@ func (h *hist) setup(fixedFile bool, fixedN int) {
 		}
 		h.sql = append(h.sql, fmt.Sprintf("/* t.csv: %q */", b.String()))
 	} else {
-		must(h.exec("DECLARE t VIEW (id, v);"))
+		h.need(h.execS("DECLARE t VIEW (id, v);"))
 		if n > 0 {
 			vals := []string{}
 			for _, id := range ids {
@@ -377,18 +382,141 @@ func (h *hist) setup(fixedFile bool, fixedN int) {
 					h.t = append(h.t, row{int64(id), fmt.Sprintf("I%d", id), strTok(v)})
 				}
 			}
-			must(h.exec("INSERT INTO t VALUES " + strings.Join(vals, ", ") + ";"))
+			h.need(h.execS("INSERT INTO t VALUES " + strings.Join(vals, ", ") + ";"))
 		}
 	}
-	must(h.exec("VAR @a, @b, @c, @d, @e, @s, @n, @k, @w, @w1; " + w1Decl + " DECLARE lg VIEW (a, b); DECLARE lp VIEW (t, a, b);"))
-	must(h.exec(fmt.Sprintf("VAR @i1, @i2; PREPARE psi FROM '%s';", psiText)))
-	must(h.exec(fmt.Sprintf("VAR @cnt := 0; PREPARE ps0 FROM '%s'; PREPARE ps1 FROM '%s'; DECLARE sv VIEW (id, v); INSERT INTO sv VALUES (1, 's'), (2, 't'), (3, 'u'); DECLARE bump FUNCTION () AS BEGIN @cnt := @cnt + 1; RETURN @cnt; END; %s", ps0Text, ps1Text, rfTrivial)))
+	h.need(h.execS("VAR @a, @b, @c, @d, @e, @s, @n, @k, @w, @w1; " + w1Decl + " DECLARE lg VIEW (a, b); DECLARE lp VIEW (t, a, b);"))
+	h.need(h.execS(fmt.Sprintf("VAR @i1, @i2; PREPARE psi FROM '%s';", psiText)))
+	h.need(h.execS(fmt.Sprintf("VAR @cnt := 0; PREPARE ps0 FROM '%s'; PREPARE ps1 FROM '%s'; DECLARE sv VIEW (id, v); INSERT INTO sv VALUES (1, 's'), (2, 't'), (3, 'u'); DECLARE bump FUNCTION () AS BEGIN @cnt := @cnt + 1; RETURN @cnt; END; %s", ps0Text, ps1Text, rfTrivial)))
+	h.need(h.execS(progSetupSQL()))
+	h.writeOther()
 	h.o.Case("c16.reset", "ok")
 }
 
+// must: failures of the operating system (scratch files) only; a csvq statement of the harness' own bookkeeping that
+// fails is an OBSERVATION (law harness_statement_failed, see need)
 func must(err error) {
 	if err != nil {
 		panic(err)
+	}
+}
+
+// execS: exec that also hands the statement back, for need
+func (h *hist) execS(sql string) (string, error) { return sql, h.exec(sql) }
+
+// need: a bookkeeping statement of the harness (setup, the trace tables, the allocation-heavy statement) must
+// succeed on every csvq; when it does not — e.g. because a value object of a literal was handed to the pool while it
+// was alive and came back overwritten — that is reported with the statement and the history, and the history ends.
+func (h *hist) need(sql string, err error) bool {
+	if err == nil {
+		return true
+	}
+	if _, hang := err.(hangError); hang {
+		return false
+	}
+	h.law("harness_statement_failed", map[string]interface{}{"statement": sql, "error": err.Error(),
+		"meaning": "a statement of the harness' own bookkeeping, valid on every csvq, was refused"})
+	h.aborted = true
+	return false
+}
+
+const otherRows = 200
+
+// writeOther: u.csv, the unrelated table whose load allocates a few hundred strings (checkSnapshots)
+func (h *hist) writeOther() {
+	path := filepath.Join(h.dir, "u.csv")
+	if _, err := os.Stat(path); err == nil {
+		return
+	}
+	var b strings.Builder
+	b.WriteString("k,v\n")
+	for i := 1; i <= otherRows; i++ {
+		fmt.Fprintf(&b, "k%d,other%d\n", i, i)
+	}
+	must(os.WriteFile(path, []byte(b.String()), 0o644))
+}
+
+// checkSnapshots: after a statement that changed a table (or anything else that hands values back to the pool and
+// allocates new ones), EVERY row of EVERY open cursor is fetched again by its absolute position and compared with the
+// row recorded at OPEN; then the pointer is put back.  First an unrelated file is loaded and strings are built, so
+// that objects a DML statement wrongly gave back to the pool are handed out again before the rows are read (with the
+// poisoning Discard hook — every second random history — the first read of a discarded cell shows it at once).
+// The fetches are ordinary lines of the stream (the model answers them too).
+func (h *hist) checkSnapshots(after string) {
+	if h.aborted || h.hung {
+		return
+	}
+	any := false
+	for _, c := range h.curs {
+		if c.open && c.pendingOvf == nil && !c.pseudo {
+			any = true
+		}
+	}
+	if !any {
+		return
+	}
+	alloc := "SELECT COUNT(*) INTO @e FROM u WHERE UPPER(v) || LOWER(k) LIKE 'OTHER%'; @e := REPLACE('snapshot', 'a', 'b') || LPAD(@e, 9, 'x');"
+	sql, err := h.execS(alloc)
+	if !h.need(sql, err) {
+		return
+	}
+	h.o.Count("snapshot_checks")
+	for _, k := range sortedCursorKeys(h.curs) {
+		c := h.curs[k]
+		if !c.open || c.pendingOvf != nil || c.pseudo {
+			continue
+		}
+		if !c.fetched && h.g.Intn(2) == 0 {
+			continue // (half of the not yet fetched cursors keep their UNKNOWN "in range" status across the DML)
+		}
+		old := c.ptr
+		for i := 0; i <= len(c.snap); i++ {
+			pos := int64(i)
+			if i == len(c.snap) {
+				pos = old // the pointer goes back where it was
+			}
+			vars := "@a, @b"
+			if c.cols() == 1 {
+				vars = "@a"
+			}
+			err := h.exec(fmt.Sprintf("@a := '~'; @b := '~'; FETCH ABSOLUTE %d %s INTO %s;", pos, k, vars))
+			impl := ""
+			if err != nil {
+				impl = errTok(err)
+			} else {
+				a, b := h.getVar("a"), h.getVar("b")
+				switch {
+				case a == "S7e" && (c.cols() == 1 || b == "S7e"):
+					impl = "none"
+				case c.cols() == 1:
+					impl = "row " + a
+				default:
+					impl = "row " + a + "," + b
+				}
+			}
+			h.o.Case(fmt.Sprintf("c16.fetch %s abs %d", k, pos), impl)
+			want := "none"
+			if pos >= 0 && pos < int64(len(c.snap)) {
+				want = "row " + c.snap[pos]
+			}
+			c.fetched = true
+			switch {
+			case pos < 0:
+				c.ptr = -1
+			case pos > int64(len(c.snap)):
+				c.ptr = int64(len(c.snap))
+			default:
+				c.ptr = pos
+			}
+			h.o.Count("snapshot_rows_refetched")
+			if impl != want {
+				h.law("snapshot_row_changed_after_dml", map[string]interface{}{"cursor": k, "cursor_query": queryText(c.qkind, c.qarg), "rows_at_open": len(c.snap),
+					"position": pos, "row_at_open": want, "row_now": impl, "after": after,
+					"rule": "until CLOSE every position of the cursor returns the row of the OPEN-time result, whatever was done to the tables since"})
+				h.aborted = true
+				return
+			}
+		}
 	}
 }
 
@@ -612,6 +740,16 @@ func (h *hist) stepOpen() {
 	}
 	name := h.pickName(false)
 	c, exists := h.curs[key(name)]
+	if exists && c.qkind == qStmtH {
+		// cursors FOR a statement with placeholders: the OPEN is a program of its own (stmtprog.go), with and without USING
+		it := &pitem{kind: 'O', name: name}
+		if h.g.Intn(4) > 0 {
+			it.us = h.genUsing(c.qarg%len(hShapes), true)
+		}
+		h.stepProg([]*pitem{it}, name)
+		h.o.Count("op:open")
+		return
+	}
 	// USING: the value of ps1's placeholder; ignored by cursors that have none
 	using, usingSQL := 0, ""
 	switch {
@@ -1063,8 +1201,10 @@ func impl0(s string) string {
 
 func (h *hist) readLog(cols int) []string {
 	v, err := h.p.Query("SELECT a, b FROM lg")
-	must(err)
 	out := []string{}
+	if !h.need("SELECT a, b FROM lg", err) {
+		return out
+	}
 	for _, r := range v.RecordSet {
 		a, b := hc.EncVal(r[0][0]), hc.EncVal(r[1][0])
 		if cols == 1 {
@@ -1074,7 +1214,7 @@ func (h *hist) readLog(cols int) []string {
 		}
 	}
 	_, err = h.p.Exec("DELETE FROM lg;")
-	must(err)
+	h.need("DELETE FROM lg;", err)
 	return out
 }
 
@@ -1216,6 +1356,9 @@ func (h *hist) stepWhile(forcedBrk int) {
 		h.law("while_in_visits_all_once", map[string]interface{}{"name": name, "expected_pointer_after": newPtr, "implementation_pointer_after": after})
 		h.aborted = true
 	}
+	if dmlKind != 0 && len(exp) > 0 && !pending {
+		h.checkSnapshots(sql)
+	}
 }
 
 func (h *hist) markDML() {
@@ -1310,6 +1453,7 @@ func (h *hist) stepDML() {
 		}
 	}
 	h.o.NonTrivial(fmt.Sprintf("dml|%v|%s|open:%d", h.file, kind, nOpen))
+	h.checkSnapshots(sql)
 }
 
 // white-box: the implementation's pointer of every open cursor lies in [-1, len]
@@ -1353,6 +1497,9 @@ func (h *hist) probe() bool {
 func (h *hist) run(steps int) int {
 	g := h.g
 	done := 0
+	if h.aborted {
+		return 0 // the setup itself was refused (reported)
+	}
 	// most histories start with a declared, opened cursor
 	if g.Intn(10) < 8 {
 		h.stepDeclare("", 0)
@@ -1378,6 +1525,8 @@ func (h *hist) run(steps int) int {
 				} else {
 					h.stepStatus(-1)
 				}
+			case w < 20:
+				structured(h.stepProgAny)
 			case w < 52:
 				h.stepFetch("", "")
 			case w < 56:
@@ -1479,7 +1628,9 @@ func scripted(g *hc.Gen, o *hc.Out, dir string, seed int64) (int, string) {
 		}
 		h := &hist{g: g, o: o, dir: dir, seedTag: fmt.Sprintf("scripted history=%d", k), noTxn: true}
 		h.setup(sc.file, sc.n)
-		h.stepDeclare("cur", sc.q)
+		if !h.aborted {
+			h.stepDeclare("cur", sc.q)
+		}
 		h.forceName = "cur"
 		total += 2
 		for _, x := range sc.ops {
@@ -1582,6 +1733,12 @@ func main() {
 	hc.Main(func(seed int64, n int, out string, args []string) {
 		o := hc.NewOut(out)
 		defer o.Close()
+		// a panic of the harness is reported like any other observation (the files written so far stay consistent)
+		defer func() {
+			if r := recover(); r != nil {
+				o.Law("harness_statement_failed", map[string]interface{}{"panic": fmt.Sprint(r), "stack": string(debug.Stack())})
+			}
+		}()
 		g := hc.NewGen(seed)
 		base := os.Getenv("VERIF_SCRATCH")
 		if base == "" {
@@ -1608,6 +1765,11 @@ func main() {
 		if hungHistories < 3 {
 			var m int
 			m, dir = scriptedBlocks(g, o, dir)
+			total += m
+		}
+		if hungHistories < 3 {
+			var m int
+			m, dir = scriptedProgs(o, dir, func(tag string) *hist { return &hist{g: g, o: o, seedTag: tag, noTxn: true} })
 			total += m
 		}
 		total += concurrentFetchers(g, o, dir)
